@@ -1,6 +1,141 @@
+(* C20 — Fallback DNS resolver is safe on any reply and always calls back exactly once.
+   Property theorems only: each is closed by `exact` of a lemma proved in C20/Proofs.v.
+   The model (C20/Model.v) is the code of supla_esp_dns_client.c with the repair
+   docs/fixes/C20_short_name_stale_state.diff (`step true`); `step false` is the code without it.
+   Histories are arbitrary lists of events
+     Resolve name | ConnectCb | DisconnectCb | ReconnectCb err | Recv bytes | SentRes r | Adv dt | Dump
+   in any order; the only side condition is that a received segment is shorter than 65536 bytes
+   (the length parameter of the receive callback is an unsigned short). *)
 From Coq Require Import List ZArith.
 Import ListNotations.
 From V Require Import Base.Bytes Gen.DnsConsts C20.Model C20.Proofs.
 Local Open Scope Z_scope.
-Theorem C20_stub : True. Proof. exact stub. Qed.
-Print Assumptions C20_stub.
+
+(* Whatever bytes arrive, in whatever order with all other events: no read outside the received
+   buffer, no write outside the request buffer, no index outside the server table (Fault), and the
+   timer loop of one `Adv` always terminates within its fuel (Fuel). *)
+Theorem C20_reply_safe : forall evs, Forall ev_ok evs ->
+  ~ In Fault (run evs) /\ ~ In Fuel (run evs).
+Proof. exact C20_reply_safe_thm. Qed.
+Print Assumptions C20_reply_safe.
+
+(* The parser hands out an address exactly for the replies described by the property:
+   consistent length prefix, RCODE 0, ANCOUNT >= 1, first answer (after the echoed question) of
+   type A / class IN with RDLENGTH 4 -- and the address is exactly those four bytes. *)
+Theorem C20_parse_iff_valid : forall dl b a, PREFIX_SIZE + HEADER_SIZE <= dl -> len b < 65536 ->
+  (parse dl b = PAddr a <-> valid_reply dl b a).
+Proof. exact C20_parse_iff_valid_thm. Qed.
+Print Assumptions C20_parse_iff_valid.
+
+(* Every address ever handed to the result callback, at any point of any history, is the address of an
+   acceptable reply received (while callbacks were registered) after the last resolve request. *)
+Theorem C20_address_iff_valid : forall pre e a, Forall ev_ok pre -> ev_ok e ->
+  In (CB (Some a)) (snd (step true (after pre) e)) ->
+  is_resolve e = false /\
+  exists pre1 b mid, pre = pre1 ++ Recv b :: mid /\ no_resolve mid /\
+                     reg (after pre1) = true /\ valid_reply (dlen (after pre1)) b a.
+Proof. exact C20_address_iff_valid_thm. Qed.
+Print Assumptions C20_address_iff_valid.
+
+(* ... more precisely: of a reply that is acceptable for the request built for the name being resolved,
+   received after that request was made (and that name was long enough to be sent at all). *)
+Theorem C20_address_of_request : forall pre0 name mid e a,
+  Forall ev_ok pre0 -> Forall ev_ok mid -> ev_ok e -> no_resolve mid ->
+  In (CB (Some a)) (snd (step true (after (pre0 ++ Resolve name :: mid)) e)) ->
+  DOMAIN_MIN <= domain_len name /\
+  exists m1 b m2, mid = m1 ++ Recv b :: m2 /\ valid_reply (request_len (domain_len name)) b a.
+Proof. exact C20_address_of_request_thm. Qed.
+Print Assumptions C20_address_of_request.
+
+(* Conversely an acceptable reply is taken: address stored, connection closed. *)
+Theorem C20_valid_reply_accepted : forall pre b a, Forall ev_ok pre -> len b < 65536 ->
+  reg (after pre) = true -> valid_reply (dlen (after pre)) b a ->
+  let s' := fst (step true (after pre) (Recv b)) in
+  success s' = true /\ ip s' = a /\ snd (step true (after pre) (Recv b)) = [Disconnect (now (after pre))].
+Proof. exact C20_valid_reply_accepted_thm. Qed.
+Print Assumptions C20_valid_reply_accepted.
+
+(* The rule used to find the end of the answer's name (first 0 byte or first pointer byte) is the
+   RFC 1035 label walk for every name whose label bytes are ordinary characters. *)
+Theorem C20_name_rule_is_rfc : forall p n, rfc_name p n -> name_skip p = Some n.
+Proof. exact C20_name_rule_is_rfc_thm. Qed.
+Print Assumptions C20_name_rule_is_rfc.
+
+(* At most once: for a request that is not superseded by another resolve, at every later point of every
+   history, (number of callbacks made for it) + (1 if the callback is still owed) = 1. *)
+Theorem C20_at_most_once : forall pre name post,
+  Forall ev_ok pre -> Forall ev_ok post -> no_resolve post ->
+  let s0 := fst (step true (after pre) (Resolve name)) in
+  let o0 := snd (step true (after pre) (Resolve name)) in
+  let s' := fst (run_from true s0 post) in
+  let o' := snd (run_from true s0 post) in
+  cb_count (o0 ++ o') + b2z (cbp s') = 1.
+Proof. exact C20_at_most_once_thm. Qed.
+Print Assumptions C20_at_most_once.
+
+(* ... and over whole histories, superseded requests included, callbacks never outnumber requests. *)
+Theorem C20_callbacks_le_requests : forall evs, Forall ev_ok evs -> cb_count (run evs) <= res_count evs.
+Proof. exact C20_callbacks_le_requests_thm. Qed.
+Print Assumptions C20_callbacks_le_requests.
+
+(* Exactly once within the bounded retry schedule, whatever the servers do.
+   While the callback is owed: (1) a timer is armed (the resolver cannot get stuck); (2) fewer than
+   2*SERVER_COUNT-1 timer callbacks have run since the request (every firing lowers the measure
+   mu = 2*(SERVER_COUNT - try_counter) + [timeout armed]); (3) the clock has not passed
+   W 1 = SERVER_COUNT*timeout + (SERVER_COUNT-1)*retry after the request, extended by one retry delay per
+   network callback delivered (a callback can only re-arm the 0.2 s retry timer).
+   Timers fire when due (the semantics of `Adv`): this is the fairness assumption, built into the event.
+   Hence, as soon as the advanced time exceeds that bound the callback has been made -- exactly once. *)
+Theorem C20_exactly_once_bounded : forall pre name post,
+  Forall ev_ok pre -> Forall ev_ok post -> no_resolve post ->
+  let s0 := fst (step true (after pre) (Resolve name)) in
+  let o0 := snd (step true (after pre) (Resolve name)) in
+  let s' := fst (run_from true s0 post) in
+  let o' := snd (run_from true s0 post) in
+  (cbp s' = true ->
+     (armed (tT s') = true \/ armed (tR s') = true) /\
+     fires s' - fires s0 <= 2 * SERVER_COUNT - 2 /\
+     now s' <= now s0 + W 1 + RETRY_US * net_count post) /\
+  now s' = now s0 + elapsed_all post /\
+  (W 1 + RETRY_US * net_count post < elapsed_all post -> cb_count (o0 ++ o') = 1) /\
+  (domain_len name < DOMAIN_MIN -> o0 = [CB None]).
+Proof. exact C20_exactly_once_bounded_thm. Qed.
+Print Assumptions C20_exactly_once_bounded.
+
+(* The request encoder stays inside the domain_len + 2 bytes reserved for the encoded name, for every
+   name (any length, any bytes), and the request has the announced length. *)
+Theorem C20_encoder_bounded : forall name,
+  exists r, build_request name = Some r /\ len r = request_len (domain_len name).
+Proof. exact C20_encoder_bounded_thm. Qed.
+Print Assumptions C20_encoder_bounded.
+
+(* The code without the repair: (1) a name shorter than DOMAIN_MIN_LEN on a fresh device makes the retry
+   run without a request, and a two-byte segment is then parsed beyond its end; (2) a short name after a
+   successful resolution is answered with the previous address.  The repaired code answers both with failure. *)
+Theorem C20_old_code_refuted :
+  In Fault (snd (run_from false init witness_fault)) /\
+  run witness_fault = [CB None] /\
+  snd (run_from false init witness_stale) =
+    [Disconnect 0; Connect 53 0 [8;8;8;8];
+     Sent 0 0 [0;22; 1;0; 1;0; 0;1; 0;0; 0;0; 0;0; 4;97;98;99;100;0; 0;1;0;1];
+     Disconnect 0; CB (Some [10;20;30;40]); CB (Some [10;20;30;40])] /\
+  run witness_stale =
+    [Disconnect 0; Connect 53 0 [8;8;8;8];
+     Sent 0 0 [0;22; 1;0; 1;0; 0;1; 0;0; 0;0; 0;0; 4;97;98;99;100;0; 0;1;0;1];
+     Disconnect 0; CB (Some [10;20;30;40]); CB None].
+Proof. exact C20_old_code_refuted_thm. Qed.
+Print Assumptions C20_old_code_refuted.
+
+(* non-vacuity: an acceptable reply exists; the failure schedule runs over the four servers and ends at
+   W 1 = 20.6 s with the failure callback; the bound of the theorem is that number *)
+Example C20_nonvacuous :
+  valid_reply 24 good_reply [10;20;30;40] /\
+  run [Resolve [97;98;99;100]; Adv 21000000] =
+    [Disconnect 0; Connect 53 0 [8;8;8;8];
+     Disconnect 5000000; Disconnect 5200000; Connect 53 5200000 [1;1;1;1];
+     Disconnect 10200000; Disconnect 10400000; Connect 53 10400000 [8;8;4;4];
+     Disconnect 15400000; Disconnect 15600000; Connect 53 15600000 [1;0;0;1];
+     Disconnect 20600000; CB None] /\
+  W 1 = 20600000 /\ 2 * SERVER_COUNT - 2 = 6.
+Proof. split; [exact good_reply_valid|]. split; [exact schedule_example|]. vm_compute. split; reflexivity. Qed.
+Print Assumptions C20_nonvacuous.
